@@ -34,8 +34,9 @@ ASSUMPTIONS = [
     "the composed model coq/Model/Pipeline.v imports the layer models (RefFormat, Clauses, Structure, Picture, Estruct, JsonType) and adds "
     "the glue between them, estruct's second parse of the cobol keyword text and the emission of every keyword in insertion order; it is "
     "tied to the code by this run on raw text only",
-    "the decoder's clause pattern (estruct.clause_pattern: usage alternation in pattern order, PIC / PICTURE, no flags) is read from the source by "
-    "harness/t1_c07b.py (Gen/PipelineParams.v); an unrecognised shape falls back to the pinned text",
+    "the decoder's clause pattern (estruct.clause_pattern: usage alternation in pattern order, PIC / PICTURE, no flags, the negative lookbehind in "
+    "front of both alternatives and the negative lookahead behind the usage word with their character classes - or their absence) is read from the "
+    "source by harness/t1_c07b.py (Gen/PipelineParams.v) and interpreted by Model/Pipeline.v est_scan_b; an unrecognised shape falls back to the pinned text",
     "io.StringIO(text) yields lines ending at a line feed (no newline translation)",
     "int() of the OCCURS digit run is taken for runs of at most 4300 digits (CPython's conversion limit is not modelled)",
     "Unmodelled outcomes (a packed-decimal item with a DB/CR picture; scanner fuel) are skipped, not judged; the evidence counts them "
@@ -141,7 +142,7 @@ def edit(rng, text):
         hits = [h for h in re.finditer(r"[A-Z][A-Z0-9-]+", text)]
         if hits:
             h = rng.choice(hits)
-            return text[:h.start()] + rng.choice(KEYWORDS + ["COMPANY", "BINARY-FLAG", "X(3)", "9(0)", "S9(4)V99", "$$9.99CR", "+9", "9DB", "A9(4)", "XX(2)",
+            return text[:h.start()] + rng.choice(KEYWORDS + ["COMPANY", "BINARY-FLAG", "EMP-COMPANY", "WS-COMP-DATE", "TOT-BINARY", "USE-DISPLAY", "ELEM-PIC", "COMP-3X", "X-COMP-3", "X(3)", "9(0)", "S9(4)V99", "$$9.99CR", "+9", "9DB", "A9(4)", "XX(2)",
                                                        "99(3)V9(2)", "FILLER", "REDEFINES-A"]) + text[h.end():]
     elif m == 15 and lines:
         i = rng.randrange(len(lines))
@@ -266,6 +267,24 @@ PIC_USAGE = [("S9(4)", "COMP"), ("9(5)", "COMP"), ("S9(9)", "BINARY"), ("9(10)",
              ("V", ""), ("S", ""), ("A9(4)", ""), ("99(3)", "COMP-3"), ("S9(4)", "COMP-5"), ("9", "COMPUTATIONAL-5")]
 # usages and pictures: every usage word, edited pictures, signs, sizes at the thresholds - all in one record, and one record each
 SPECIAL.append("       01  REC.\n" + "".join("           05  F%d PIC %s %s.\n" % (i, p, u) for i, (p, u) in enumerate(PIC_USAGE[:25])))
+# the decoder's second parse of the entry text (estruct.clause_pattern) and the WORD BOUNDARIES of its pattern: usage words, PIC,
+# PICTURE, USAGE and IS at the start, in the middle and at the end of data names, of REDEFINES / DEPENDING ON targets and of index
+# names, with and without a USAGE clause of the item's own; a usage word glued to name characters behind it (COMP-3X, COMP-5,
+# BINARYX: the ordered alternation goes on to the next word when the lookahead fails); words right after a separator, a
+# parenthesis, an apostrophe (a literal is still re-parsed: finding K-C12-value-literal-reparsed); in lower and mixed case
+SPECIAL += [
+    "       01  REC.\n           05  EMP-COMPANY PIC X(10).\n           05  WS-COMP-DATE PIC 9(8).\n           05  TOT-BINARY-CT PIC 9(3).\n           05  LAST-ONE PIC X.\n",
+    "       01  REC.\n           05  COMP-AMOUNT PIC S9(5)V99.\n           05  PACKED-DECIMAL-QTY PIC 9(5).\n           05  USE-DISPLAY PIC 9(3) COMP-3.\n           05  ELEMENTARY-PIC PIC X(4).\n           05  X-PICTURE PICTURE IS 9(4) USAGE IS BINARY.\n",
+    "       01  COMP-3-REC.\n           05  N-COMP-3 PIC S9(4).\n           05  OLD-COMPUTATIONAL-1 PIC 9(6).\n           05  YTD-PACKED-DECIMAL PIC S9(7) PACKED-DECIMAL.\n           05  BINARY-FLAG PIC 9 BINARY.\n           05  DISPLAY-TOTAL PIC 9(4) DISPLAY.\n",
+    "       01  REC.\n           05  USAGE-COMP-CT PIC 99.\n           05  THIS-IS PIC X(2).\n           05  IS-BINARY-SW PIC 9(4).\n           05  NON-USAGE-COMP-3 PIC 9(5).\n           05  PIC-9 PIC 9.\n           05  PICTURE-X PICTURE X.\n",
+    "       01  REC.\n           05  EMP-COMP PIC X(6).\n           05  EMP-COMP-R REDEFINES EMP-COMP PIC 9(6).\n           05  CT-BINARY PIC 9.\n           05  T-DISPLAY OCCURS 1 TO 5 DEPENDING ON CT-BINARY PIC X(2).\n",
+    "       01  REC.\n           05  T OCCURS 3 TIMES INDEXED BY IX-COMP PIC 9(4).\n           05  U OCCURS 2 INDEXED BY BINARY-IX.\n               10  V PIC X.\n",
+    "       01  REC.\n           05  A PIC 9(4) COMP-3X.\n           05  B PIC 9(4) COMP-5.\n           05  C PIC 9(4) BINARYX.\n           05  D PIC 9(4) XCOMP.\n           05  E PIC 9(4) COMP-.\n           05  F PIC 9(4) COMPUTATIONAL-9.\n",
+    "       01  REC.\n           05  A PIC 9(4) COMP-3, VALUE 1.\n           05  B PIC 9(4); BINARY.\n           05  C PIC 9(4) VALUE (COMP).\n           05  D PIC X(6) VALUE 'COMP-3'.\n           05  E PIC X(6) VALUE 'XCOMP-3'.\n           05  F PIC X(8) VALUE 'A BINARY'.\n           05  G PIC X(6) VALUE 'BINARYX'.\n",
+    "       01  REC.\n           05  Emp-Company PIC X(3).\n           05  ws-comp-date PIC 9(8).\n           05  Tot-BINARY-ct PIC 9(3).\n           05  emp-COMP PIC 9(3).\n           05  COMP-x PIC 9(3).\n",
+    "       01  REC.\n           05  G-COMP USAGE COMP-3.\n               10  EMP-COMPANY PIC 9(5).\n               10  WS-BINARY PIC 9(5) USAGE DISPLAY.\n",
+    "       01  REC.\n           05  A-PIC PIC X(3) VALUE 'PIC'.\n           05  B-PIC PIC 9(3) VALUE IS 123.\n           05  USAGE-IS PIC 9(3) USAGE IS COMP.\n           05  IS-COMP PIC 9(3) IS COMP.\n",
+]
 SPECIAL += ["       01  REC.\n           05  F PIC %s %s.\n           05  T OCCURS 2 PIC %s %s.\n" % (p, u, p, u) for p, u in PIC_USAGE]
 
 # ------------------------------------------------------------------ streams
